@@ -1,6 +1,7 @@
 """C12 - Read filtering keeps exactly the k-mers seen min-count times at passing quality."""
 import os
 import random
+import re
 
 from .. import gen as G
 from .. import model as M
@@ -19,7 +20,7 @@ RULE = ('Cases: paired FASTQ read sets over a 2k..6k-base genome (read lengths f
         'equals the model sequence of passing windows in read order (Python ntHash); no Bloom false negative; counts '
         'increase by one per Bloom hit; a k-mer is accepted exactly when the count reaches C (C=2: from the second sighting '
         'on).  An extra dictionary entry is excused only by an observed Bloom false positive or an observed 64-bit hash '
-        'collision; a missing entry never.  Builds of 2..20 read-pair samples with --threads 1..8 are compared column by column with the per-sample model.  --min-count auto (k in 15..63, both widths; two samples whose four read files hold the same reads, so that it does not matter which two files the program fits its model on) must use the cutoff `ska cov` reports for those reads, print the same table and obey the counting rule at that count.  A sixth of the cases also build with one file named in both columns (every window counted twice).  Three to five read builds with different k, count, quality threshold and rule inside one process (library route, harness) are each compared with the model.  Fault injection on the input: a read file with one malformed record (quality string of another length, missing + line) or a gzip stream cut in its middle is either refused (non-zero exit, no .skf) or loses no k-mer that reaches the count among the well-formed records.  Non-trivial: some k-mer is below and some at/above the count, or a quality '
+        'collision; a missing entry never.  Builds of 2..20 read-pair samples with --threads 1..8 are compared column by column with the per-sample model.  --min-count auto (k in 15..63, both widths; two samples whose four read files hold the same reads, so that it does not matter which two files the program fits its model on) must use the cutoff `ska cov` reports for those reads, print the same table and obey the counting rule at that count.  A sixth of the cases also build with one file named in both columns (every window counted twice).  Three to five read builds with different k, count, quality threshold and rule inside one process (library route, harness) are each compared with the model.  In the thorough tier one deep sample (about 9.2 million k-mers each seen exactly three times, all of them at count two at the same time after two passes) is built with --min-count 3 and the number of stored k-mers must equal the number that reach the count.  Fault injection on the input: a read file with one malformed record (quality string of another length, missing + line) or a gzip stream cut in its middle is either refused (non-zero exit, no .skf) or loses no k-mer that reaches the count among the well-formed records.  Non-trivial: some k-mer is below and some at/above the count, or a quality '
         'equals the threshold; distinct = distinct (parameters, reads).')
 ASSUMPTIONS = ['the exact counter in this file states the specification; quality = ASCII - 33',
                'hooked runs use --threads 1 so that the event order is the read order']
@@ -27,7 +28,7 @@ REQUIRED = {t: ['rule:none', 'rule:middle', 'rule:strict', 'quality_equal_thresh
                 'probes_above_C', 'filter_calls_monitored', 'accepts_monitored', 'mincount:1', 'mincount:2', 'mincount:3+',
                 'kmers_included', 'kmers_excluded_by_count'] for t in ('quick', 'thorough')}
 REQUIRED['quick'] = REQUIRED['quick'] + ['large_input_distinct_kmers', 'multi_sample_builds', 'multi_sample_parallel_builds', 'damaged_input_refused', 'auto_mincount_builds', 'auto_width64', 'auto_width128', 'same_file_in_both_columns', 'builds_with_default_options', 'inprocess_read_builds_compared', 'huge_gz_inputs']
-REQUIRED['thorough'] = REQUIRED['quick']
+REQUIRED['thorough'] = REQUIRED['quick'] + ['deep_inputs']
 RULES = {'none': 'no-filter', 'middle': 'middle', 'strict': 'strict'}
 
 
@@ -60,6 +61,9 @@ def plan(tier, seed, rng, scale):
     for i, (nr, gz) in enumerate([(38000, True)] if tier == 'quick' else [(38000, True), (60000, True), (38000, False)]):
         # millions of distinct k-mers in one sample, gzip-compressed: the counting filter at the scale the 0.1% clause is about
         descs.insert(5 + i, {'k': 31, 'rc': True, 'rule': 'none', 'minc': 2, 'minq': 0, 'seed': rng.getrandbits(32), 'nreads': nr, 'gz': gz, 'chk': False})
+    if tier != 'quick':
+        # more than 2^23 distinct k-mers of one sample at the same count at the same time, every one reaching the count exactly
+        descs.insert(8, {'k': 31, 'rc': True, 'rule': 'none', 'minc': 3, 'minq': 0, 'seed': rng.getrandbits(32), 'deep': 9500000, 'chk': False})
     for i in range(int((16 if tier == 'quick' else 160) * scale)):
         descs.append({'k': [15, 21, 31, 33, 41, 63][i % 6], 'rc': rng.random() < 0.7, 'rule': 'strict', 'minc': 0, 'minq': 20,
                       'seed': rng.getrandbits(32), 'auto': True, 'chk': False})
@@ -456,6 +460,55 @@ def run_hugegz(desc, ctx, res):
         res.nontrivial.append(fingerprint(['huge', desc['seed']]))
 
 
+def run_deep(desc, ctx, res):
+    """A deep sample: a random sequence of desc['deep'] bases cut into 1 kb reads, written twice into the first file and once,
+    reverse-complemented, into the second, so that every one of about 9.2 million k-mers is seen exactly three times and, after
+    the first two passes, all of them stand at count two at the same time.  With --min-count 3 every one reaches the count and
+    must be in the file (`ska nk` header); nothing else can be.  Up to five coincidences between random split k-mers are
+    tolerated in the count (expected number about 4e-5)."""
+    k, L, n = desc['k'], 1000, desc['deep']
+    raw = os.urandom(n)
+    g = raw.translate(bytes((b'ACGT'[i & 3]) for i in range(256))).decode()
+    q = 'I' * L
+    nreads = 0
+    with open(ctx.path('d0.fastq'), 'w') as f0, open(ctx.path('d1.fastq'), 'w') as f1:
+        for rep in range(2):
+            for i in range(0, n - L + 1, L):
+                f0.write('@f%d_%d\n%s\n+\n%s\n' % (rep, i, g[i:i + L], q))
+        for i in range(0, n - L + 1, L):
+            f1.write('@r%d\n%s\n+\n%s\n' % (i, M.rc(g[i:i + L]), q))
+            nreads += 1
+    del g, raw
+    ctx.write('dlist', 'D\t%s\t%s\n' % (ctx.path('d0.fastq'), ctx.path('d1.fastq')))
+    p = G.ska_build(ctx, ctx.path('deep'), ['-f', ctx.path('dlist'), '--min-count', desc['minc'], '--min-qual', 0, '--qual-filter', 'no-filter'], k, True)
+    res.evals += 1
+    detail = {'k': k, 'bases': n, 'seed': desc['seed'], 'note': 'random content; any sequence of this shape shows the same'}
+    for f in ('d0.fastq', 'd1.fastq'):
+        try:
+            os.unlink(ctx.path(f))
+        except OSError:
+            pass
+    if p.returncode != 0:
+        raise Inconclusive('deep build failed: ' + p.stderr[-200:])
+    q = ctx.sh(ctx.ska, 'nk', ctx.path('deep.skf'))
+    m = re.search(r'^k-mers=(\d+)$', q.stdout, re.M)
+    if q.returncode != 0 or not m:
+        raise Inconclusive('nk on the deep build failed: ' + q.stderr[-200:])
+    got, exp = int(m.group(1)), nreads * (L - k + 1)
+    res.count('deep_input_kmers_at_the_count', exp)
+    try:
+        os.unlink(ctx.path('deep.skf'))
+    except OSError:
+        pass
+    if got < exp - 5 or got > exp:
+        res.violate('C12:deep:lost' if got < exp else 'C12:deep:extra',
+                    'k=%d --min-count %d: %d k-mers each seen exactly %d times (two passes in the first file, one reverse-complemented in the second), the file holds %d'
+                    % (k, desc['minc'], exp, desc['minc'], got), detail)
+    else:
+        res.count('deep_inputs')
+        res.nontrivial.append(fingerprint(['deep', desc['seed']]))
+
+
 def run_multi(desc, ctx, res):
     """Several read-pair samples in one build (parallel for >= 10 samples and > 1 thread): every column must equal the
     dictionary of its own reads; samples share most of their k-mers, so state leaking from one sample's filter into the
@@ -537,6 +590,9 @@ def run_case(desc, ctx):
         return res
     if desc.get('nreads'):
         run_hugegz(desc, ctx, res)
+        return res
+    if desc.get('deep'):
+        run_deep(desc, ctx, res)
         return res
     k, rcmode, rule, minc, minq = desc['k'], desc['rc'], desc['rule'], desc['minc'], desc['minq']
     rng = random.Random(desc['seed'])
